@@ -7,6 +7,7 @@ package sim
 import (
 	"fmt"
 	"hash/fnv"
+	"os"
 	"runtime"
 	"sort"
 	"strconv"
@@ -118,6 +119,7 @@ type Kernel struct {
 	udp       map[string]*UDPSock
 	lockReqs  []*lockReq
 	writeReqs []*writeReq
+	wake      chan struct{}
 	owners    map[interface{}]*lockReq
 	gnames    map[uint64]string
 	lockSeq   int
@@ -247,6 +249,37 @@ func (k *Kernel) nameGoroutine(name string) {
 	k.mu.Unlock()
 }
 
+// anonName names a goroutine that has not touched a simulated socket yet after its creation site and
+// its creator ("created by F in goroutine N" from its own stack trace): deterministic as long as the
+// creator has a deterministic name. Must be called on the goroutine itself, with k.mu held.
+func (k *Kernel) anonName(g uint64) string {
+	buf := make([]byte, 64<<10)
+	n := runtime.Stack(buf, false)
+	st := string(buf[:n])
+	i := strings.LastIndex(st, "created by ")
+	if i < 0 {
+		return "g:root"
+	}
+	line := st[i+11:]
+	if j := strings.IndexByte(line, '\n'); j >= 0 {
+		line = line[:j]
+	}
+	fn, parent := line, ""
+	if j := strings.Index(line, " in goroutine "); j >= 0 {
+		fn = line[:j]
+		pid, _ := strconv.ParseUint(strings.TrimSpace(line[j+14:]), 10, 64)
+		if pn, ok := k.gnames[pid]; ok {
+			parent = pn
+		} else {
+			parent = "?"
+		}
+	}
+	if j := strings.LastIndex(fn, "/"); j >= 0 {
+		fn = fn[j+1:]
+	}
+	return "g:" + parent + ">" + fn
+}
+
 // ---- cooperative mutexes ---------------------------------------------------------------------------------------------
 
 func (k *Kernel) lockHook(m interface{}, site string) {
@@ -255,13 +288,15 @@ func (k *Kernel) lockHook(m interface{}, site string) {
 	k.mu.Lock()
 	name, ok := k.gnames[g]
 	if !ok {
-		name = "g:" + site
+		name = k.anonName(g)
+		k.gnames[g] = name
 	}
 	req.gname = name
 	k.lockSeq++
 	req.seq = k.lockSeq
 	k.lockReqs = append(k.lockReqs, req)
 	k.mu.Unlock()
+	k.poke()
 	<-req.ch
 }
 
@@ -303,9 +338,21 @@ func (k *Kernel) keysHook(site string, n int) []int {
 }
 
 type writeReq struct {
-	c   *Conn
-	ch  chan struct{}
-	gid uint64
+	c    *Conn
+	dial string // non-empty: this is a pending outbound dial to that address, not a write
+	ch   chan struct{}
+	gid  uint64
+}
+
+// parkDial parks the calling goroutine until the driver lets its outbound connection attempt happen
+// (so that stub factories never run concurrently with each other or with the driver).
+func (k *Kernel) parkDial(addr string) {
+	r := &writeReq{dial: addr, ch: make(chan struct{}), gid: goid()}
+	k.mu.Lock()
+	k.writeReqs = append(k.writeReqs, r)
+	k.mu.Unlock()
+	k.poke()
+	<-r.ch
 }
 
 // parkWrite parks the calling goroutine until the driver grants its write on c.
@@ -314,6 +361,7 @@ func (k *Kernel) parkWrite(c *Conn) {
 	k.mu.Lock()
 	k.writeReqs = append(k.writeReqs, r)
 	k.mu.Unlock()
+	k.poke()
 	<-r.ch
 }
 
@@ -371,6 +419,7 @@ type action struct {
 	kind string // grant | deliver | close | reset | window
 	req  *lockReq
 	wreq *writeReq
+	lis  *Listener
 	conn *Conn
 	udp  *udpAction
 	key  string // canonical sort key / description
@@ -408,12 +457,38 @@ func (k *Kernel) enabledActions() []action {
 	if contended > k.Stats.ContendedMax {
 		k.Stats.ContendedMax = contended
 	}
-	sort.SliceStable(k.writeReqs, func(i, j int) bool { return k.writeReqs[i].c.id < k.writeReqs[j].c.id })
+	sort.SliceStable(k.writeReqs, func(i, j int) bool {
+		a, b := k.writeReqs[i], k.writeReqs[j]
+		if (a.dial != "") != (b.dial != "") {
+			return a.dial != ""
+		}
+		if a.dial != "" {
+			return a.dial < b.dial
+		}
+		return a.c.id < b.c.id
+	})
 	for i, w := range k.writeReqs {
+		if w.dial != "" {
+			acts = append(acts, action{kind: "write", wreq: w, key: "dial " + w.dial})
+			continue
+		}
 		if i > 0 && k.writeReqs[i-1].c == w.c {
 			continue // one pending write per connection is offered at a time (arrival order within a conn)
 		}
 		acts = append(acts, action{kind: "write", wreq: w, key: "write " + w.c.name})
+	}
+	var ports []string
+	for p := range k.listeners {
+		ports = append(ports, p)
+	}
+	sort.Strings(ports)
+	for _, p := range ports {
+		l := k.listeners[p]
+		l.mu.Lock()
+		if len(l.waiting) > 0 && !l.closed {
+			acts = append(acts, action{kind: "accept", lis: l, key: "accept " + p})
+		}
+		l.mu.Unlock()
 	}
 	for _, c := range k.conns {
 		c.mu.Lock()
@@ -523,6 +598,9 @@ func (k *Kernel) apply(a action) {
 		k.mu.Unlock()
 		k.Stats.Writes++
 		close(a.wreq.ch)
+	case "accept":
+		a.lis.letOneThrough()
+		k.lastGid = 0
 	case "deliver":
 		n := a.conn.deliver(k)
 		k.Stats.Deliveries++
@@ -564,6 +642,12 @@ func (k *Kernel) collect() {
 			h := fnv.New64a()
 			h.Write(out)
 			k.mixDigest(&k.digest, fmt.Sprintf("out %s %d %x", c.name, len(out), h.Sum64()))
+			if k.TraceOn {
+				k.trace = append(k.trace, fmt.Sprintf("  out %s %d %x", c.name, len(out), h.Sum64()))
+				if os.Getenv("SIMLAL_DUMP") != "" {
+					k.trace = append(k.trace, fmt.Sprintf("  dump %q", out))
+				}
+			}
 			c.TotalOut += int64(len(out))
 			if c.handler != nil {
 				c.handler.OnData(c, out)
@@ -610,32 +694,36 @@ func (k *Kernel) Settle() {
 	}
 }
 
-// Advance lets d of simulated time pass, processing whatever the firing timers enable.
+// Advance lets d of simulated time pass. The driver sleeps on the fake clock and is woken at once
+// (at the simulated instant) whenever a lal goroutine parks on a lock or a socket write, so timer-driven
+// work inside lal happens at its own simulated time, not at the end of the driver's sleep.
 func (k *Kernel) Advance(d time.Duration) {
 	k.Settle()
 	end := time.Now().Add(d)
-	q := 50 * time.Millisecond
 	for {
 		rem := time.Until(end)
 		if rem <= 0 {
 			break
 		}
-		if q > rem {
-			q = rem
-		}
 		if time.Since(k.startTime) > time.Duration(k.P.MaxSimSec)*time.Second {
 			k.Abort("simulated-time budget exhausted")
 		}
-		before := k.step
-		time.Sleep(q)
-		k.Settle()
-		if k.step == before && q < time.Second {
-			q *= 2
-		} else if k.step != before {
-			q = 50 * time.Millisecond
+		t := time.NewTimer(rem)
+		select {
+		case <-t.C:
+		case <-k.wake:
+			t.Stop()
 		}
+		k.Settle()
 	}
 	k.Stats.SimMs = k.NowMs()
+}
+
+func (k *Kernel) poke() {
+	select {
+	case k.wake <- struct{}{}:
+	default:
+	}
 }
 
 // Blocked reports the lock requests that cannot be granted (for deadlock detection).
@@ -698,6 +786,7 @@ func RunBubbleTrace(seed uint64, p SchedParams, trace bool, enter func(func()), 
 		}()
 		enter(func() {
 			k.startTime = time.Now()
+			k.wake = make(chan struct{}, 1)
 			k.installSeams()
 			defer k.removeSeams()
 			defer k.cleanupSandbox()
